@@ -28,6 +28,12 @@ CHECKS = {
     "C10": dict(cat="other", tech="contracts on the real encoders; concolic execution + z3 per shape (ids/assignments unbounded), Lemma DE; int_to_binary proved by pyvc.wp; native SAT replay",
                 text="Per (relation, n, k) shape the real encoder is executed with symbolic variable ids and z3 proves, for all ids and all 2^n assignments at once, that the asserted clauses hold iff the count relation holds, against the callee contracts of pop_count/ripple_carry, and that every auxiliary variable is defined exactly once (unique extension). Bounded only in n and k (quick n<=9, thorough n<=16,k<=40); int_to_binary is proved for all k by pyvc.wp; dispatch and request round-trip are bounded evaluation on the real code.",
                 note="Bounded in (n,k); Lemma DE is a paper lemma; z3/cvc5 and pycryptosat trusted; math.log evaluated concretely per shape.", ref="4.1 C10"),
+    "C13": dict(cat="other", tech="pyvc.wp proofs (mixed-radix / base-n / falling-factorial unranking: rank equation, ranges, termination) + exhaustive bounded bijection checks against itertools",
+                text="extract_components, compute_jth_combination and compute_jth_inversion_sequence are proved for all inputs (digits in range, rank(result) + (j div N) N == j, loops terminate, no division by zero); the search-based functions (combinations without replacement, permutation prefixes, permutations with copies and their prefixes, counting functions, shared memo) are enumerated completely for every parameter tuple in a stated bound.",
+                note="Bijection for the three proved functions follows from the rank equation by finite pigeonhole (paper). The other eight functions are bounded (counters<=3, total<=7/8, n<=5/6).", ref="4.1 C13"),
+    "C28": dict(cat="other", tech="real OPB renderers run per shape; text evaluated by an independent pseudo-Boolean evaluator under all assignments (truth table)",
+                text="Every clause (<=3/4 literals over 5 ids), every request (kind, n<=5/6, k) and every blocking constraint (support<=4/5) is rendered by the real functions and compared with the SAT-side meaning under all assignments: complete per shape, bounded in shape.",
+                note="spec/opb.py evaluator trusted; Gurobi absent so only the exported text is judged.", ref="4.1 C28"),
     "C12": dict(cat="other", tech="contracts on the real builders; concolic execution, gates proved for all inputs (loop-free, all paths), adders/pop count per width by z3 against callee contracts",
                 text="half/full/saturate adders: loop-free, every path explored and covered by the precondition, clause set equivalent to the definitions for all ids and assignments (proved). ripple_carry, ripple_saturate, pop_count: proved per width against callee contracts (sum equation with documented top-bit saturation; every fresh variable defined exactly once => no other freedom). Bounded in width only.",
                 note="Widths bounded (quick: ripple<=10, pop count n<=16); Lemma DE on paper; SMT solvers trusted.", ref="4.1 C12"),
